@@ -98,6 +98,13 @@ EXPLANATION = ("Model: Model/Reveal.v (reveal_plates incl. guards, mask_screen, 
                "=> the default of Screen.__init__'s signature, which is checked).  For arrays of different lengths numpy raises where the list "
                "functions truncate; C12_source_arrays_aligned shows this cannot occur on a constructed screen.  Not translated: the other "
                "statements of Screen.__init__ (shape / dtype checks of the name and dose arrays, the id encoders = C01, attribute stores).")
+# ---- source-translation links of the command-line wrappers (Model/Cli.v, Generated/SrcCli.v) ----
+THEOREMS.update({
+    'C12_model_is_source_cli_reveal_plate': 'the translation of the whole function reveal_plate.main regenerated on this run equals, for every record L of library functions and all parsed arguments, Cli.cli_reveal_plate: reveal_plates(load(--screen), --plate-id list) saved to --output',
+    'C12_model_is_source_cli_extract_screen_metadata': "the translation of the whole function extract_screen_metadata.main regenerated on this run equals Cli.cli_extract_screen_metadata: the JSON object's counters - every plate of the loaded screen counted once, as observed or as unobserved - next to n_unique_samples, n_unique_treatments, size, n_plates",
+    'C12_model_is_source_cli_reveal_plate_reveal': "instance over Model/Reveal.v with the library call standing for the TRANSLATED reveal_plates: the translated main = load, the model's reveal_plates (mappings carried), save",
+})
+EXPLANATION += ("  CLI wrappers: reveal_plate.main and extract_screen_metadata.main are re-translated as WHOLE functions on every run (Generated/SrcCli.v) and proved equal to Model/Cli.v.  These links trust the translator harness/py2gal.py (for these links extended by cfg typed_effects, kwcalls keys `module.function`, state_calls assigned to a tuple), the representation of Model/Cli.v (parsed arguments = a record of the plain argparse results, get_args() not translated = the primitive `get_args()` yielding that record; a main() denotes the list of (path, content) files it writes; `L` = ANY record of library functions over abstract types) and EXACTLY these primitives of harness/src_functions.py, each one field read / one library or constructor call standing for the function of that name (whose own link, where it exists, is the one of its property): CLI_REVEAL_PLATE: the fields of `args` read as the record's projections (a store to one is refused); ignored: log_config.configure_logging(args), logger.info/warning; Screen.load_h5(p), reveal_plates(s, ids), typed effect r.save_h5(p). CLI_EXTRACT_METADATA: the fields of `args` read as the record's projections (a store to one is refused); ignored: log_config.configure_logging(args), logger.info/warning; Screen.load_h5(p), s.plates, p.is_observed, s.n_unique_samples, s.n_unique_treatments, s.size, s.n_plates, the dict literal with exactly the six keys n_unique_samples, n_unique_treatments, size, n_plates, n_unobserved_plates, n_observed_plates = the record of their values, open(p, 'w'), typed effect json.dump(o, f, indent=4) = append (f, o); the counting loop is translated. ")
 
 
 def _view(s):
